@@ -1,9 +1,12 @@
 import RxModel.Driver.Proto
 import RxModel.Conc.StatusLts
 import RxModel.Conv.Convert
+import RxModel.Conv.StatusTake
 /-
   Runner of suite `convert` (C14): same lines as harness/src/suites/convert_suite.rs.
-  Field `kind` = future | stream | collectfuture | status;
+  Field `kind` = future | stream | collectfuture | status | statustake | statusrace | statuswait;
+  kind statustake (and statuswait with a cutter): fields `src (hot)|(create)|(iter k)`,
+  `cutter (id)|(take n)|(first)|(takewhile p)|(takewhilei p)` (RxModel/Conv/StatusTake.lean);
   field `model` = code | fixed (default `code`: the code as it is in /repo).
 -/
 namespace Rx.Driver.Conv
@@ -56,6 +59,56 @@ def goConv {σ ω : Type} (id : String) (step : σ → Ev → σ × ω) (show_ :
       s!"{id}.{k} {show_ o}" :: goConv id step show_ w' (k + 1) r
     | none => [s!"{id}.{k} BADEV"]
 
+def parseTEv (ev : List SExp) : Option TEv :=
+  match ev with
+  | .atom "emit" :: _ :: n :: _ => some (.emit (parseNotif n))
+  | .atom "sub" :: _ => some .sub
+  | .atom "poll" :: _ => some .poll
+  | .atom "q" :: _ => some .qStatus
+  | _ => none
+
+def parseCutter (f : List SExp) : Cutter :=
+  match f with
+  | e :: _ =>
+    match e.head with
+    | "take" => .take (e.args.getD 0 (.atom "")).nat
+    | "first" => .take 1
+    | "takewhile" => .takeWhile (pred (e.args.getD 0 (.atom "")).head) false
+    | "takewhilei" => .takeWhile (pred (e.args.getD 0 (.atom "")).head) true
+    | _ => .id
+  | [] => .id
+
+def parseTSrc (f : List SExp) : TSrc :=
+  match f with
+  | e :: _ =>
+    match e.head with
+    | "create" => .create
+    | "iter" => .iter (e.args.getD 0 (.atom "")).nat
+    | _ => .hot
+  | [] => .hot
+
+def goTake (id : String) (src : TSrc) (c : Cutter) : StatTW → Nat → List (List SExp) → List String
+  | _, _, [] => []
+  | w, k, ev :: r =>
+    match parseTEv ev with
+    | some x =>
+      let (w', o) := StatTW.step src c w x
+      s!"{id}.{k} {showStOut o}" :: goTake id src c w' (k + 1) r
+    | none => [s!"{id}.{k} BADEV"]
+
+/-- kind `statuswait` with a cutter: `pre` is delivered, the waiter polls (Pending: parked; or Ready),
+    the terminal arrives: the waiter returns iff it was Ready or has been woken. -/
+def waitCut (src : TSrc) (c : Cutter) (pre : List Notif) (term : Notif) : Bool :=
+  let w0 := (StatTW.run src c {} (pre.map TEv.emit)).1
+  let (w1, o) := StatTW.step src c w0 .poll
+  let evs : List TEv := match src with
+    | .iter _ => [.sub]
+    | _ => match term with
+      | .next v => [.emit (.next v), .emit .complete]
+      | t => [.emit t]
+  let w2 := (StatTW.run src c w1 evs).1
+  o == .ready || decide (w2.wakes > w1.wakes)
+
 def runConvertCase (id : String) (field : String → List SExp) (events : List (List SExp)) :
     List String :=
   let kind := match field "kind" with | e :: _ => e.head | [] => "future"
@@ -67,6 +120,7 @@ def runConvertCase (id : String) (field : String → List SExp) (events : List (
   | "collectfuture" => goConv id (CFW.step m) showFOut {} 0 events
   | "stream" => goConv id (StrW.step m) showSOut {} 0 events
   | "status" => goConv id StatW.step showStOut {} 0 events
+  | "statustake" => goTake id (parseTSrc (field "src")) (parseCutter (field "cutter")) {} 0 events
   | "statusrace" =>
     -- `wait_for_end` racing with the producer's terminal, the producer running
     -- exactly between the waiter's flag check and its waker registration
@@ -85,6 +139,16 @@ def runConvertCase (id : String) (field : String → List SExp) (events : List (
       | _ => "wait=HANG"
     (List.range events.length).map fun k => s!"{id}.{k} {line}"
   | "statuswait" =>
+    if !(field "cutter").isEmpty || !(field "src").isEmpty then
+      let src := parseTSrc (field "src")
+      let c := parseCutter (field "cutter")
+      let pre := (field "pre").map parseNotif
+      (List.range events.length).map fun k =>
+        let term := match events.getD k [] with
+          | _ :: n :: _ => parseNotif n
+          | _ => .complete
+        s!"{id}.{k} {if waitCut src c pre term then "wait=returned" else "wait=HANG"}"
+    else
     -- the waiter has polled (registered its waker, answer Pending) before the producer's
     -- terminal, error or completion alike: store the flag, wake (one schedule of the
     -- system whose every schedule is covered by C14_no_lost_wakeup_fixed)
